@@ -50,10 +50,12 @@ var noNL = rx.Options{ExcludeRunes: []rune{'\n'}}
 type parseSite struct {
 	Call    *ssa.Call
 	Parse   *ssa.Function
-	Regex   string      // pattern constant used by Parse
-	RegexG  *ssa.Global // the package-level *regexp.Regexp
-	Keyword string      // from the strings.Contains(text, "@K") guard
-	Text    ssa.Value   // the text argument
+	Regex   string              // pattern constant used by Parse
+	RegexG  *ssa.Global         // the package-level *regexp.Regexp
+	Keyword string              // from the strings.Contains(text, "@K") guard
+	Text    ssa.Value           // the text argument
+	ViaFn   *ssa.Function       // shared helper the call sits in (several callers): analysed once per caller
+	Via     ssa.CallInstruction // the calling context of ViaFn this site stands for
 }
 
 // regexOf: the constant pattern of the package-level regexp used by fn through FindStringSubmatch.
@@ -147,7 +149,26 @@ func (c *Ctx) parseSites() []*parseSite {
 			c.parseCache = append(c.parseCache, ps)
 		})
 	}
-	sort.Slice(c.parseCache, func(i, j int) bool { return c.parseCache[i].Call.Pos() < c.parseCache[j].Call.Pos() })
+	sort.SliceStable(c.parseCache, func(i, j int) bool { return c.parseCache[i].Call.Pos() < c.parseCache[j].Call.Pos() })
+	// a parse call inside a helper shared by several declaration kinds stands for one site per calling context
+	var expanded []*parseSite
+	for _, ps := range c.parseCache {
+		top := ps.Call.Parent()
+		for top.Parent() != nil {
+			top = top.Parent()
+		}
+		callers := P.Callers(top)
+		if len(callers) < 2 || len(callers) > 6 {
+			expanded = append(expanded, ps)
+			continue
+		}
+		for _, cs := range callers {
+			cp := *ps
+			cp.ViaFn, cp.Via = top, cs
+			expanded = append(expanded, &cp)
+		}
+	}
+	c.parseCache = expanded
 	return c.parseCache
 }
 
@@ -370,12 +391,15 @@ func (c *Ctx) ruleAttach(keywords ...string) {
 			if o == ps {
 				break
 			}
-			if o.Parse == ps.Parse && o.Call.Parent() == ps.Call.Parent() {
+			if o.Parse == ps.Parse && o.Call.Parent() == ps.Call.Parent() && o.Via == ps.Via {
 				nSame++
 			}
 		}
 		if nSame > 0 {
 			cons += fmt.Sprintf("/%d", nSame+1)
+		}
+		if ps.Via != nil {
+			cons += "<-" + FuncName(ps.Via.Parent())
 		}
 		where := P.Pos(ps.Call.Pos())
 		if kw == "" {
@@ -383,63 +407,65 @@ func (c *Ctx) ruleAttach(keywords ...string) {
 			continue
 		}
 		perKw[kw]++
-		// ---- guards: exactly the pre-filters (+ declaration-kind dispatch, nil checks, loops)
-		var unexpected []string
-		sawMatcher := false
-		for _, l := range P.Guards(ps.Call) {
-			switch {
-			case l.Kind == "rangeloop" || l.Kind == "rangefunc" || nilCheck(l):
-			case l.Pos && P.litCallTo(l, "strings.Contains") != nil && constString(P.litCallTo(l, "strings.Contains").Call.Args[1]) == kw:
-				// L(regex) must be within "contains kw"
-				res, err := rx.Subset(ps.Regex, regexp.QuoteMeta(kw), noNL)
-				if err != nil || !res.Holds {
-					c.fail("PREFILTER", cons, where, fmt.Sprintf("dispatch strings.Contains(text, %q) is narrower than the regex: %q is recognised by the pattern but never reaches it", kw, res.Witness))
-				} else {
-					c.ok("PREFILTER", cons+"#contains", where, "L(regex) ⊆ texts containing "+kw)
+		P.Pinned(ps.ViaFn, ps.Via, func() {
+			// ---- guards: exactly the pre-filters (+ declaration-kind dispatch, nil checks, loops)
+			var unexpected []string
+			sawMatcher := false
+			for _, l := range P.Guards(ps.Call) {
+				switch {
+				case l.Kind == "rangeloop" || l.Kind == "rangefunc" || nilCheck(l):
+				case l.Pos && P.litCallTo(l, "strings.Contains") != nil && constString(P.litCallTo(l, "strings.Contains").Call.Args[1]) == kw:
+					// L(regex) must be within "contains kw"
+					res, err := rx.Subset(ps.Regex, regexp.QuoteMeta(kw), noNL)
+					if err != nil || !res.Holds {
+						c.fail("PREFILTER", cons, where, fmt.Sprintf("dispatch strings.Contains(text, %q) is narrower than the regex: %q is recognised by the pattern but never reaches it", kw, res.Witness))
+					} else {
+						c.ok("PREFILTER", cons+"#contains", where, "L(regex) ⊆ texts containing "+kw)
+					}
+				case kw == "@mutable" && l.Pos && c.enclosingImmutableLit(l, ps):
+					// @mutable is read only for fields of a type whose own doc line was recognised as @immutable
+				case l.Pos && litCall(l) != nil && strings.HasSuffix(P.calleeName(litCall(l).Common()), "ahocorasick.Matcher).Contains"):
+					sawMatcher = true
+					dict := c.matcherDict(litCall(l).Call.Args[0])
+					var alts []string
+					for _, d := range dict {
+						alts = append(alts, regexp.QuoteMeta(d))
+					}
+					if len(alts) == 0 {
+						c.fail("PREFILTER", cons+"#matcher", where, "cannot determine the dictionary of the Aho-Corasick pre-filter")
+						break
+					}
+					res, err := rx.Subset(ps.Regex, "(?:"+strings.Join(alts, "|")+")", noNL)
+					if err != nil || !res.Holds {
+						c.fail("PREFILTER", cons+"#matcher", where, fmt.Sprintf("pre-filter dictionary %v is narrower than the regex: %q is recognised by the pattern but filtered out before", dict, res.Witness))
+					} else {
+						c.ok("PREFILTER", cons+"#matcher", where, fmt.Sprintf("L(regex) ⊆ texts containing one of %v", dict))
+					}
+					// the matcher must see the same text
+					if d := P.Desc(litCall(l).Call.Args[1]); !strings.Contains(d, P.Desc(ps.Text)) {
+						c.fail("PREFILTER", cons+"#matcher-text", where, "pre-filter is applied to a different text than the one parsed")
+					}
+				case c.attachDispatchLit(l, kw):
+				default:
+					if x, t, _ := typeAssertOK(l); x != nil && !l.Pos && strings.HasPrefix(typeStr(t), "*go/ast.") {
+						break
+					}
+					unexpected = append(unexpected, short(l.String()))
 				}
-			case kw == "@mutable" && l.Pos && c.enclosingImmutableLit(l, ps):
-				// @mutable is read only for fields of a type whose own doc line was recognised as @immutable
-			case l.Pos && litCall(l) != nil && strings.HasSuffix(P.calleeName(litCall(l).Common()), "ahocorasick.Matcher).Contains"):
-				sawMatcher = true
-				dict := c.matcherDict(litCall(l).Call.Args[0])
-				var alts []string
-				for _, d := range dict {
-					alts = append(alts, regexp.QuoteMeta(d))
-				}
-				if len(alts) == 0 {
-					c.fail("PREFILTER", cons+"#matcher", where, "cannot determine the dictionary of the Aho-Corasick pre-filter")
-					break
-				}
-				res, err := rx.Subset(ps.Regex, "(?:"+strings.Join(alts, "|")+")", noNL)
-				if err != nil || !res.Holds {
-					c.fail("PREFILTER", cons+"#matcher", where, fmt.Sprintf("pre-filter dictionary %v is narrower than the regex: %q is recognised by the pattern but filtered out before", dict, res.Witness))
-				} else {
-					c.ok("PREFILTER", cons+"#matcher", where, fmt.Sprintf("L(regex) ⊆ texts containing one of %v", dict))
-				}
-				// the matcher must see the same text
-				if d := P.Desc(litCall(l).Call.Args[1]); !strings.Contains(d, P.Desc(ps.Text)) {
-					c.fail("PREFILTER", cons+"#matcher-text", where, "pre-filter is applied to a different text than the one parsed")
-				}
-			case c.attachDispatchLit(l, kw):
-			default:
-				if x, t, _ := typeAssertOK(l); x != nil && !l.Pos && strings.HasPrefix(typeStr(t), "*go/ast.") {
-					continue
-				}
-				unexpected = append(unexpected, short(l.String()))
 			}
-		}
-		_ = sawMatcher
-		if len(unexpected) == 0 {
-			c.ok("ATTACH/NO-EXTRA-GUARD", cons, where, "parse is reached for every comment line that passes its own pre-filters")
-		} else {
-			for _, u := range unexpected {
-				c.fail("ATTACH/UNEXPECTED-GUARD", cons, where, "annotation "+kw+" is not parsed under a condition the grammar does not mention: "+u)
+			_ = sawMatcher
+			if len(unexpected) == 0 {
+				c.ok("ATTACH/NO-EXTRA-GUARD", cons, where, "parse is reached for every comment line that passes its own pre-filters")
+			} else {
+				for _, u := range unexpected {
+					c.fail("ATTACH/UNEXPECTED-GUARD", cons, where, "annotation "+kw+" is not parsed under a condition the grammar does not mention: "+u)
+				}
 			}
-		}
-		// ---- text provenance
-		c.attachText(ps, cons, where)
-		// ---- result flows into the matching list
-		c.attachFlow(ps, cons, where)
+			// ---- text provenance
+			c.attachText(ps, cons, where)
+			// ---- result flows into the matching list
+			c.attachFlow(ps, cons, where)
+		})
 	}
 	for _, kw := range keywords {
 		min := 1
@@ -540,6 +566,7 @@ func (c *Ctx) docPriority(ps *parseSite, cons, where string) {
 		return
 	}
 	for _, g := range groups {
+		g = P.throughParams(g)
 		phi, isPhi := g.(*ssa.Phi)
 		if !isPhi {
 			// a single source
